@@ -207,3 +207,39 @@ Theorem C19_any_position : forall k cf t bs d,
   from_input_typed (EK k cf) t bs = TOk d -> raws_in bs d.
 Proof. exact RawProps.C19_any_position. Qed.
 Print Assumptions C19_any_position.
+
+(* ---- eleven small cursor functions of de.rs TRANSLATED ON THIS RUN (tools/translate_cursor.py -> Gen/CursorTables.v; AST and interpreter Model/ScanAst.v): the number
+        skipper (ignore_integer / _decimal / _exponent), parse_ident, parse_whitespace, parse_object_colon, end_seq, end_map, peek_end_of_value, has_next_element,
+        has_next_key — the hand-written models equal the interpreted source for every state and enough fuel ---- *)
+From Coq Require Import String.
+From SJ Require Import Base.Bytes Base.Utf8 Gen.Tables Model.Read Model.Num Model.De Model.Stream Model.ScanAst Gen.CursorTables Proofs.ScanSrc.
+Require Import Lia Btauto.
+From SJ Require Import Proofs.CursorSrc.
+Theorem C19_skipper_is_source : forall (E : env) (s : st) (buf : bytes) (fuel : nat),
+  ((length (rest s) + 11 <= fuel)%nat ->
+     run_scan fuel E CURSOR_TABLE "ignore_integer" None s buf = liftu buf (Num.ignore_integer E s)) /\
+  ((length (rest s) + 8 <= fuel)%nat ->
+     run_scan fuel E CURSOR_TABLE "ignore_decimal" None s buf = liftu buf (Num.ignore_decimal E s)) /\
+  ((length (rest s) + 5 <= fuel)%nat ->
+     run_scan fuel E CURSOR_TABLE "ignore_exponent" None s buf = liftu buf (Num.ignore_exponent E s)) /\
+  (forall ident : bytes, (4 <= fuel)%nat ->
+     run_scan_v fuel E CURSOR_TABLE "parse_ident" (Some (VBytes ident)) s buf = liftu buf (Read.parse_ident E ident s)) /\
+  ((length (rest s) + 5 <= fuel)%nat ->
+     run_scan fuel E CURSOR_TABLE "parse_whitespace" None s buf =
+     let* (o, s') := Read.parse_whitespace E s in Ok (ROpt o, buf, s')) /\
+  ((length (rest s) + 8 <= fuel)%nat ->
+     run_scan fuel E CURSOR_TABLE "parse_object_colon" None s buf = liftu buf (De.parse_object_colon E s)) /\
+  ((length (rest s) + 10 <= fuel)%nat ->
+     run_scan fuel E CURSOR_TABLE "end_seq" None s buf = liftu buf (De.end_seq E s)) /\
+  ((length (rest s) + 8 <= fuel)%nat ->
+     run_scan fuel E CURSOR_TABLE "end_map" None s buf = liftu buf (De.end_map E s)) /\
+  ((3 <= fuel)%nat ->
+     run_scan fuel E CURSOR_TABLE "peek_end_of_value" None s buf = liftu buf (Stream.peek_end_of_value E s)) /\
+  (forall first : bool, (length (rest s) + 12 <= fuel)%nat ->
+     run_scan_v fuel E CURSOR_TABLE "has_next_element" (Some (VBool first)) s buf = lift_has E buf s (De.has_next_element E first s)) /\
+  (forall first : bool, (length (rest s) + 12 <= fuel)%nat ->
+     run_scan_v fuel E CURSOR_TABLE "has_next_key" (Some (VBool first)) s buf = lift_has E buf s (De.has_next_key E first s)) /\
+  (first_branch_clears (fbody CUR_has_next_element) = true /\ first_branch_clears (fbody CUR_has_next_key) = true).
+Proof. exact (@CursorSrc.cursor_model_is_translated_source). Qed.
+Print Assumptions C19_skipper_is_source.
+
